@@ -364,21 +364,17 @@ func (m *Message) ReadFrom(r io.Reader) error {
 }
 
 func readSection(reader *bufio.Reader, readN int) ([]byte, error) {
-	buf := make([]byte, readN)
-
-	var err error
-	n := 0
-	for n < readN {
-		m, err := reader.Read(buf[n:])
-		if err != nil {
-			break
-		}
-		n += m
+	if readN < 0 {
+		return nil, errors.New("Negative section size")
 	}
 
+	// Read at most readN bytes. The buffer grows with the data actually read,
+	// so a bogus size in the header can not trigger a huge allocation.
+	buf, err := io.ReadAll(io.LimitReader(reader, int64(readN)))
 	if err != nil {
 		return buf, err
 	}
+	n := len(buf)
 
 	end, err := reader.ReadString('\n')
 	switch {
